@@ -141,7 +141,7 @@ def approx_close(a, b):
     if len(va) != len(vb):
         return False, float("inf")
     scale = max(fromhex(a["SCALE"]), 1e-300)
-    tol = 1024.0 * eps * scale * max(1.0, math.sqrt(len(va)))
+    tol = 64.0 * eps * scale * max(1.0, math.sqrt(len(va)))
     worst = 0.0
     for x, y in zip(va, vb):
         if x != x or y != y or math.isinf(x) or math.isinf(y):
@@ -191,7 +191,7 @@ def run(tier, seed):
     v = core.Verdict(PID, tier, seed)
     v.assumptions = ["exact cases use integer-valued data small enough to be exact in every element type, so float results must be bit-identical too "
                      "(+0.0 and -0.0 are identified)",
-                     "rounded cases (division by a scalar, sqrt chains, norm, inverse, solve, lu, qr, det) are compared within 1024*eps*scale*sqrt(n) of the "
+                     "rounded cases (division by a scalar, sqrt chains, norm, inverse, solve, lu, qr, det) are compared within 64*eps*scale*sqrt(n) of the "
                      "reference configuration sse2/c++14/-O2: this clause of the property is tested, not proved",
                      "compile acceptance and the effect of -O levels are observed on this corpus, not proved"]
     ok, info = core.proof_stage(v, PID, thorough=(tier == "thorough"))
